@@ -477,6 +477,46 @@ func runC13(c *mc.Ctx) {
 			cases = append(cases, c13Case{Key: 0, P: p, M: m, Items: ih, Query: []string{mc.Hex([]byte("aa-nonmember"))}})
 		}
 	}
+	// the full 64-bit value range (N*M just below 2^64): hashed values - of the set and, above all, of a
+	// QUERY - may lie 2^63 or more apart, where a comparison by subtraction has the wrong sign.  The
+	// members are two items whose SipHash under the all-zero key is below 2^38 (found once by scanning
+	// 2^29 candidates, re-verified here), so the filters themselves stay a few bytes long.
+	{
+		small := [][]byte{[]byte("g-37982193"), []byte("g-336752757")}
+		for _, it := range small {
+			if ref.SipHash24(c13Keys[0], it) >= 1<<38 {
+				panic("harness: " + string(it) + " no longer has a tiny SipHash value")
+			}
+		}
+		var others [][]byte
+		for i := 0; len(others) < 6; i++ {
+			others = append(others, []byte(fmt.Sprintf("far-%d", i)))
+		}
+		type cfg struct {
+			m   uint64
+			set [][]byte
+		}
+		for _, cf := range []cfg{{1<<64 - 1, small[:1]}, {1<<63 - 1, small}, {1<<63 - 1, [][]byte{small[1], small[0]}}} {
+			var ih []string
+			for _, it := range cf.set {
+				ih = append(ih, mc.Hex(it))
+			}
+			pool := append(append([][]byte{}, cf.set...), others...)
+			for a := range pool {
+				for b := range pool {
+					q2 := []string{mc.Hex(pool[a]), mc.Hex(pool[b])}
+					nontriv[len(cases)] = true
+					cases = append(cases, c13Case{Key: 0, P: 32, M: cf.m, Items: ih, Query: q2})
+					for d := range pool {
+						if d != a && d != b && (a < len(cf.set) || b < len(cf.set) || d < len(cf.set)) {
+							cases = append(cases, c13Case{Key: 0, P: 32, M: cf.m, Items: ih, Query: append(append([]string{}, q2...), mc.Hex(pool[d]))})
+						}
+					}
+				}
+			}
+			cases = append(cases, c13Case{Key: 0, P: 32, M: cf.m, Items: ih})
+		}
+	}
 	c.Note("quotient_ladder_sets", ladderSets)
 	c.Note("configurations_with_a_low32_colliding_pair", collisionConfigs)
 	if collisionConfigs == 0 {
